@@ -1,4 +1,4 @@
-import Toodee.Spec.Inv
+import Toodee.Proofs.Index
 /-
   C02 — Checked access reaches exactly the addressed cell or panics.
 
@@ -23,7 +23,43 @@ theorem C02_owned_valid (m : Mode) (t : TD α) (h : t.Inv) (col row : Nat)
     t.getUncheckedRow m row = .ok ⟨t.pos 0 row, t.numCols⟩ ∧
     (⟨t.pos 0 row, t.numCols⟩ : Win).index col = .ok (t.pos col row) ∧
     (∃ it, t.col m col = .ok it ∧ it.index m row = .ok (t.pos col row)) := by
-  sorry
+  obtain ⟨hlen, _, hword⟩ := h
+  have hcell : row * t.numCols + col < t.data.length := hlen ▸ cell_lt hc hr
+  have hend : row * t.numCols + t.numCols ≤ t.data.length := hlen ▸ row_end_le hr
+  have hmul : umul m row t.numCols = .ok (row * t.numCols) := umul_ok m _ _ (by omega)
+  have hadd : uadd m (row * t.numCols) col = .ok (row * t.numCols + col) := uadd_ok m _ _ (by omega)
+  have haddC : uadd m (row * t.numCols) t.numCols = .ok (row * t.numCols + t.numCols) :=
+    uadd_ok m _ _ (by omega)
+  have hidx : t.win.getIdx (row * t.numCols + col) = .ok (row * t.numCols + col) := by
+    rw [Win.getIdx_ok _ (by simpa [TD.win] using hcell)]; simp [TD.win]
+  have hrng : t.win.getRange (row * t.numCols) (row * t.numCols + t.numCols)
+      = .ok ⟨row * t.numCols, t.numCols⟩ := by
+    rw [Win.getRange_ok _ (by omega) (by simpa [TD.win] using hend)]; simp [TD.win]
+  refine ⟨hcell, ?_, ?_, ?_, ?_, ?_, ?_, ?_, ?_⟩
+  · simp [TD.indexCoord, TD.pos, hc, hr, hmul, hadd, hidx]
+  · simp [TD.indexCoordMut, TD.pos, hc, hr, hmul, hadd, hidx]
+  · simp [TD.getUnchecked, TD.pos, hmul, hadd, hidx]
+  · simp [TD.indexRow, TD.pos, hr, hmul, haddC, hrng]
+  · simp [TD.indexRowMut, TD.pos, hr, hmul, haddC, hrng]
+  · simp [TD.getUncheckedRow, TD.pos, hmul, haddC, hrng]
+  · rw [Win.index_ok _ (by simpa using hc)]; simp [TD.pos]
+  · refine ⟨⟨⟨col, t.data.length - t.numCols + 1⟩, t.numCols - 1⟩, ?_, ?_⟩
+    · have h1 : usub m t.data.length t.numCols = .ok (t.data.length - t.numCols) :=
+        usub_ok m _ _ (by omega)
+      have h2 : uadd m (t.data.length - t.numCols) col = .ok (t.data.length - t.numCols + col) :=
+        uadd_ok m _ _ (by omega)
+      have h3 : uadd m (t.data.length - t.numCols + col) 1 = .ok (t.data.length - t.numCols + col + 1) :=
+        uadd_ok m _ _ (by omega)
+      have h4 : usub m t.numCols 1 = .ok (t.numCols - 1) := usub_ok m _ _ (by omega)
+      have h5 : t.win.getRange col (t.data.length - t.numCols + col + 1)
+          = .ok ⟨col, t.data.length - t.numCols + 1⟩ := by
+        rw [Win.getRange_ok _ (by omega) (by simp [TD.win]; omega)]
+        simp [TD.win]; omega
+      simp [TD.col, TD.colParams, hc, h1, h2, h3, h4, h5]
+    · have hs : 1 + (t.numCols - 1) = t.numCols := by omega
+      rw [Col.index_ok m _ _ (by simp only [hs]; omega) (by simp only []; omega)
+        (by simp only [hs]; omega)]
+      simp only [hs, TD.pos]; congr 1; omega
 
 /-- owned array, invalid coordinate: every checked accessor panics -/
 theorem C02_owned_invalid (m : Mode) (t : TD α) (h : t.Inv) (col row : Nat)
@@ -33,7 +69,54 @@ theorem C02_owned_invalid (m : Mode) (t : TD α) (h : t.Inv) (col row : Nat)
     (t.indexRow m row >>= fun w => w.index col) = .error .panic ∧
     (t.indexRowMut m row >>= fun w => w.index col) = .error .panic ∧
     (t.col m col >>= fun it => it.index m row) = .error .panic := by
-  sorry
+  have _ := hcw; have _ := hrw
+  obtain ⟨hlen, hzero, hword⟩ := h
+  have hrow : (t.indexRow m row >>= fun w => w.index col) = .error .panic := by
+    by_cases hr : row < t.numRows
+    · have hc : ¬ col < t.numCols := fun hc => hbad ⟨hc, hr⟩
+      have hend : row * t.numCols + t.numCols ≤ t.data.length := hlen ▸ row_end_le hr
+      have hmul : umul m row t.numCols = .ok (row * t.numCols) := umul_ok m _ _ (by omega)
+      have haddC : uadd m (row * t.numCols) t.numCols = .ok (row * t.numCols + t.numCols) :=
+        uadd_ok m _ _ (by omega)
+      have hrng := Win.getRange_ok t.win (s := row * t.numCols) (e := row * t.numCols + t.numCols)
+        (by omega) (by simpa [TD.win] using hend)
+      simp [TD.indexRow, hr, hmul, haddC, hrng, Win.index, hc]
+    · simp [TD.indexRow, hr]
+  refine ⟨?_, ?_, hrow, hrow, ?_⟩
+  · by_cases hr : row < t.numRows
+    · have hc : ¬ col < t.numCols := fun hc => hbad ⟨hc, hr⟩
+      simp [TD.indexCoord, hr, hc]
+    · simp [TD.indexCoord, hr]
+  · by_cases hr : row < t.numRows
+    · have hc : ¬ col < t.numCols := fun hc => hbad ⟨hc, hr⟩
+      simp [TD.indexCoordMut, hr, hc]
+    · simp [TD.indexCoordMut, hr]
+  · by_cases hc : col < t.numCols
+    · have hr : t.numRows ≤ row := Nat.not_lt.1 fun hr => hbad ⟨hc, hr⟩
+      have hR : 0 < t.numRows := by
+        rcases Nat.eq_zero_or_pos t.numRows with h0 | h0
+        · have := hzero.2 h0; omega
+        · exact h0
+      have hCle : t.numCols ≤ t.data.length := by
+        have := row_end_le (C := t.numCols) hR; omega
+      have hge : t.data.length ≤ row * t.numCols := by
+        rw [hlen, Nat.mul_comm]; exact Nat.mul_le_mul_right _ hr
+      have h1 : usub m t.data.length t.numCols = .ok (t.data.length - t.numCols) :=
+        usub_ok m _ _ hCle
+      have h2 : uadd m (t.data.length - t.numCols) col = .ok (t.data.length - t.numCols + col) :=
+        uadd_ok m _ _ (by omega)
+      have h3 : uadd m (t.data.length - t.numCols + col) 1 = .ok (t.data.length - t.numCols + col + 1) :=
+        uadd_ok m _ _ (by omega)
+      have h4 : usub m t.numCols 1 = .ok (t.numCols - 1) := usub_ok m _ _ (by omega)
+      have h5 := Win.getRange_ok t.win (s := col) (e := t.data.length - t.numCols + col + 1)
+        (by omega) (by simp [TD.win]; omega)
+      have hs : 1 + (t.numCols - 1) = t.numCols := by omega
+      simp only [TD.col, TD.colParams, hc, h1, h2, h3, h4, h5, not_true_eq_false, if_false,
+        ok_bind, pure_eq]
+      apply Col.index_panic
+      · simp only [hs]; omega
+      · simp only [hs]; omega
+    · simp [TD.col, TD.colParams, hc]
 
 /-- view / mutable view over a root buffer of `n` cells, valid coordinate -/
 theorem C02_view_valid (m : Mode) (v : VW) (n : Nat) (h : v.Inv n) (col row : Nat)
@@ -45,7 +128,41 @@ theorem C02_view_valid (m : Mode) (v : VW) (n : Nat) (h : v.Inv n) (col row : Na
     v.getUncheckedRow m row = .ok ⟨v.pos 0 row, v.numCols⟩ ∧
     (⟨v.pos 0 row, v.numCols⟩ : Win).index col = .ok (v.pos col row) ∧
     (∃ it, v.col m col = .ok it ∧ it.index m row = .ok (v.pos col row)) := by
-  sorry
+  obtain ⟨hstride, _, hlen, hinside, hword, hsw⟩ := h
+  have hR : ¬ v.numRows = 0 := by omega
+  rw [if_neg hR] at hlen
+  have hrow : row * v.stride ≤ (v.numRows - 1) * v.stride := row_start_le _ hr
+  have hmul : umul m row v.stride = .ok (row * v.stride) := umul_ok m _ _ (by omega)
+  have hadd : uadd m (row * v.stride) col = .ok (row * v.stride + col) := uadd_ok m _ _ (by omega)
+  have haddC : uadd m (row * v.stride) v.numCols = .ok (row * v.stride + v.numCols) :=
+    uadd_ok m _ _ (by omega)
+  have hidx := Win.getIdx_ok v.data (i := row * v.stride + col) (by omega)
+  have hrng := Win.getRange_ok v.data (s := row * v.stride) (e := row * v.stride + v.numCols)
+    (by omega) (by omega)
+  refine ⟨by simp only [VW.pos]; omega, ?_, ?_, ?_, ?_, ?_, ?_⟩
+  · simp [VW.indexCoord, VW.pos, hc, hr, hmul, hadd, hidx, Nat.add_assoc]
+  · simp [VW.getUnchecked, VW.pos, hmul, hadd, hidx, Nat.add_assoc]
+  · simp [VW.indexRow, VW.pos, hr, hmul, haddC, hrng]
+  · simp [VW.getUncheckedRow, VW.pos, hmul, haddC, hrng]
+  · rw [Win.index_ok _ (by simpa using hc)]; simp [VW.pos]
+  · refine ⟨⟨⟨v.data.off + col, (v.numRows - 1) * v.stride + 1⟩, v.stride - 1⟩, ?_, ?_⟩
+    · have h1 : usub m v.numRows 1 = .ok (v.numRows - 1) := usub_ok m _ _ (by omega)
+      have h2 : umul m (v.numRows - 1) v.stride = .ok ((v.numRows - 1) * v.stride) :=
+        umul_ok m _ _ (by omega)
+      have h3 : uadd m col ((v.numRows - 1) * v.stride) = .ok (col + (v.numRows - 1) * v.stride) :=
+        uadd_ok m _ _ (by omega)
+      have h4 : uadd m (col + (v.numRows - 1) * v.stride) 1
+          = .ok (col + (v.numRows - 1) * v.stride + 1) := uadd_ok m _ _ (by omega)
+      have h5 : usub m v.stride 1 = .ok (v.stride - 1) := usub_ok m _ _ (by omega)
+      have h6 : v.data.getRange col (col + (v.numRows - 1) * v.stride + 1)
+          = .ok ⟨v.data.off + col, (v.numRows - 1) * v.stride + 1⟩ := by
+        rw [Win.getRange_ok _ (by omega) (by omega)]
+        congr 2; omega
+      simp [VW.col, VW.colParams, hc, hR, h1, h2, h3, h4, h5, h6]
+    · have hs : 1 + (v.stride - 1) = v.stride := by omega
+      rw [Col.index_ok m _ _ (by simp only [hs]; omega) (by simp only []; omega)
+        (by simp only [hs]; omega)]
+      simp only [hs, VW.pos]; congr 1; omega
 
 /-- view / mutable view, invalid coordinate -/
 theorem C02_view_invalid (m : Mode) (v : VW) (n : Nat) (h : v.Inv n) (col row : Nat)
@@ -53,17 +170,61 @@ theorem C02_view_invalid (m : Mode) (v : VW) (n : Nat) (h : v.Inv n) (col row : 
     v.indexCoord m col row = .error .panic ∧
     (v.indexRow m row >>= fun w => w.index col) = .error .panic ∧
     (v.col m col >>= fun it => it.index m row) = .error .panic := by
-  sorry
+  have _ := hcw; have _ := hrw
+  obtain ⟨hstride, hzero, hlen, hinside, hword, hsw⟩ := h
+  refine ⟨?_, ?_, ?_⟩
+  · by_cases hr : row < v.numRows
+    · have hc : ¬ col < v.numCols := fun hc => hbad ⟨hc, hr⟩
+      simp [VW.indexCoord, hr, hc]
+    · simp [VW.indexCoord, hr]
+  · by_cases hr : row < v.numRows
+    · have hc : ¬ col < v.numCols := fun hc => hbad ⟨hc, hr⟩
+      have hR : ¬ v.numRows = 0 := by omega
+      rw [if_neg hR] at hlen
+      have hrow : row * v.stride ≤ (v.numRows - 1) * v.stride := row_start_le _ hr
+      have hmul : umul m row v.stride = .ok (row * v.stride) := umul_ok m _ _ (by omega)
+      have haddC : uadd m (row * v.stride) v.numCols = .ok (row * v.stride + v.numCols) :=
+        uadd_ok m _ _ (by omega)
+      have hrng := Win.getRange_ok v.data (s := row * v.stride) (e := row * v.stride + v.numCols)
+        (by omega) (by omega)
+      simp [VW.indexRow, hr, hmul, haddC, hrng, Win.index, hc]
+    · simp [VW.indexRow, hr]
+  · by_cases hc : col < v.numCols
+    · have hr : v.numRows ≤ row := Nat.not_lt.1 fun hr => hbad ⟨hc, hr⟩
+      have hR : ¬ v.numRows = 0 := fun h0 => by have := hzero.2 h0; omega
+      rw [if_neg hR] at hlen
+      have hge : (v.numRows - 1) * v.stride + v.stride ≤ row * v.stride := by
+        rw [pred_mul_add _ (by omega)]; exact Nat.mul_le_mul_right _ hr
+      have h1 : usub m v.numRows 1 = .ok (v.numRows - 1) := usub_ok m _ _ (by omega)
+      have h2 : umul m (v.numRows - 1) v.stride = .ok ((v.numRows - 1) * v.stride) :=
+        umul_ok m _ _ (by omega)
+      have h3 : uadd m col ((v.numRows - 1) * v.stride) = .ok (col + (v.numRows - 1) * v.stride) :=
+        uadd_ok m _ _ (by omega)
+      have h4 : uadd m (col + (v.numRows - 1) * v.stride) 1
+          = .ok (col + (v.numRows - 1) * v.stride + 1) := uadd_ok m _ _ (by omega)
+      have h5 : usub m v.stride 1 = .ok (v.stride - 1) := usub_ok m _ _ (by omega)
+      have h6 := Win.getRange_ok v.data (s := col) (e := col + (v.numRows - 1) * v.stride + 1)
+        (by omega) (by omega)
+      have hs : 1 + (v.stride - 1) = v.stride := by omega
+      simp only [VW.col, VW.colParams, hc, hR, h1, h2, h3, h4, h5, h6, not_true_eq_false, if_false,
+        ok_bind, pure_eq]
+      apply Col.index_panic
+      · simp only [hs]; omega
+      · simp only [hs]; omega
+    · simp [VW.col, VW.colParams, hc]
 
 /-- distinct valid coordinates denote distinct cells (so "exactly the addressed cell") -/
 theorem C02_pos_injective (v : VW) (n : Nat) (h : v.Inv n) (c1 r1 c2 r2 : Nat)
     (h1 : c1 < v.numCols) (h2 : c2 < v.numCols) (_ : r1 < v.numRows) (_ : r2 < v.numRows)
     (he : v.pos c1 r1 = v.pos c2 r2) : c1 = c2 ∧ r1 = r2 := by
-  sorry
+  have hs := h.stride
+  apply strided_inj (S := v.stride) (by omega) (by omega)
+  simp only [VW.pos] at he
+  omega
 
 /-- an owned array is the view `(off 0, stride = num_cols)` of its buffer: same positions -/
 theorem C02_owned_as_view (t : TD α) (h : t.Inv) :
-    t.asView.Inv t.data.length ∧ ∀ c r, t.asView.pos c r = t.pos c r := by
-  sorry
+    t.asView.Inv t.data.length ∧ ∀ c r, t.asView.pos c r = t.pos c r :=
+  TD.asView_inv t h
 
 end Toodee
